@@ -6,7 +6,9 @@ EXPLANATION = (
     'Decides the same structural clauses as C01 on the general base: flag freshness at every consumer, fresh count, coherent '
     'permutation (final sort and retrieve_ritzpair), documented form of the convergence test, accessor selection and '
     'V*(selected vectors), and for the real- / complex-shift solvers that the first nev Ritz values are transformed back to '
-    'the spectrum of A before the base sort on every normal path and not touched afterwards. Does NOT decide residuals, '
+    'the spectrum of A before the base sort on every normal path and not touched afterwards; every subscript of the Ritz arrays '
+    '(restart shift loop with its conjugate-pair look-ahead, nev_adjusted, complex-shift back-transformation) is within the '
+    'array for all sizes (zone analysis shared with C13). Does NOT decide residuals, '
     'unit norm, the choice of root in the complex-shift back-transformation or distinctness of pairs.')
 ASSUMPTIONS = ['Eigen kernels and std::sort are correct', 'instantiations listed in drivers/ are representative of every OpType']
 BASE = 'Spectra::GenEigsBase'
@@ -20,6 +22,8 @@ def run(ctx):
     eigsbase.accessor_agreement(ctx, BASE)
     shiftsolvers.backtransform_before_sort(ctx, BASE, 2)
     shiftsolvers.shifted_classes_override(ctx, BASE)
+    from . import c13
+    c13.index_ranges(ctx, bases=('Spectra::GenEigsBase',), floor=60)
     ctx.require('flags-fresh-at-use', 3)
     ctx.require('coherent-permutation', 3)
     ctx.require('backtransform-then-base-sort', 2)
